@@ -325,3 +325,33 @@ func (c *Ctx) selectArms(fn *ssa.Function, pred func(sel *ssa.Select, st *ssa.Se
 	})
 	return out
 }
+
+// paramOrSpill: the value is parameter p itself, the cell p was spilled to
+// (its address), or a load of that cell; the cell is written only with p.
+func paramOrSpill(p *ssa.Parameter) func(ssa.Value) bool {
+	cellOfP := func(v ssa.Value) bool {
+		al, ok := v.(*ssa.Alloc)
+		if !ok {
+			return false
+		}
+		sts := ir.StoresTo(al)
+		if len(sts) == 0 {
+			return false
+		}
+		for _, st := range sts {
+			if st.Val != ssa.Value(p) {
+				return false
+			}
+		}
+		return true
+	}
+	return func(v ssa.Value) bool {
+		if v == ssa.Value(p) || cellOfP(v) {
+			return true
+		}
+		if ld, ok := v.(*ssa.UnOp); ok {
+			return cellOfP(ld.X)
+		}
+		return false
+	}
+}
